@@ -312,9 +312,15 @@ Definition front_lp (now : Z) (db : option bytes) (prec : bytes) (body : bytes) 
 (* ------------------------------------------------------------------------------------ *)
 (* the server                                                                             *)
 
+(* The compression front (decompressGzipPooled / decompressZstdPooled, library code) is modelled at
+   the level: a validly compressed body is its plain body (the correspondence compresses a share of
+   the requests below, the model does not see it); a body that starts with the gzip or zstd magic
+   but does not decompress is refused (400) by either write endpoint and has NO effect on later
+   requests - [RqUndecompressable]. *)
 Inductive request :=
 | RqMsgpack (db : option bytes) (a : MP.ast)
-| RqLP (db : option bytes) (prec : bytes) (body : bytes).
+| RqLP (db : option bytes) (prec : bytes) (body : bytes)
+| RqUndecompressable.
 
 Inductive sevent := SReq (r : request) | SFlush.
 
@@ -324,6 +330,7 @@ Definition front (s : scfg) (r : request) : dreq :=
   match r with
   | RqMsgpack db a => front_msgpack (sc_typed s) (sc_now s) db a
   | RqLP db prec body => front_lp (sc_now s) db prec body
+  | RqUndecompressable => DStatus S4xx
   end.
 
 Definition front_ev (s : scfg) (e : sevent) : event :=
@@ -450,7 +457,7 @@ Definition request_class (s : scfg) (r : request) : N :=
       | MP.OOk items => items_class items
       | _ => 0%N
       end
-  | RqLP _ _ _ => 0%N
+  | _ => 0%N
   end.
 
 Definition sevent_class (s : scfg) (e : sevent) : N :=
@@ -460,10 +467,18 @@ Definition case_class (c : ccase) : N :=
   let s := {| sc_max := cc_max c; sc_typed := cc_typed c; sc_now := 0 |} in
   fold_left (fun a e => N.lor a (sevent_class s e)) (cc_evs c) 0%N.
 
+(* steps at which the model accepts (2xx) and the implementation answered 5xx: a valid request
+   refused by a server error *)
+Fixpoint denied_valid (model observed : list N) : N :=
+  match model, observed with
+  | m :: mr, o :: orest => ((if N.eqb m 2 && N.eqb o 5 then 1 else 0) + denied_valid mr orest)%N
+  | _, _ => 0%N
+  end.
+
 (* what the model predicts for a case, as numbers: (ending: 0 completed, 1 died, 2 unpredicted;
-   first reason code; guard class) - printed for known-finding classification *)
+   number of valid requests answered 5xx by the implementation; input class) *)
 Definition case_verdict (c : ccase) : N * N * N :=
   let res := case_result c in
   (match r_end res with Completed => 0 | Died _ => 1 | Unpredicted => 2 end,
-   match r_end res with Died (r :: _) => reason_code r | _ => 0 end,
+   denied_valid (map obs_code (r_obs res)) (cc_codes c),
    case_class c)%N.
